@@ -17,7 +17,7 @@ for pid in ids:
     wt = f"/tmp/wt/r{rnd}-{pid.lower()}"
     subprocess.run(["git", "-C", "/repo", "worktree", "add", "--detach", "-f", wt, "HEAD"], check=True, capture_output=True)
     os.makedirs(wt + "/_seed", exist_ok=True)
-    prev = sorted(d for d in os.listdir("/verif/seeded") if d.split("-")[0].rstrip("bcdefghijk") == pid.lower())
+    prev = sorted(d for d in os.listdir("/verif/seeded") if d.split("-")[0].rstrip("bcdefghijklmnop") == pid.lower())
     with open(wt + "/_seed/PROPERTY.txt", "w") as f:
         f.write(f"{pid}: {p['title']}\n\n{p['statement']}\n\nQuantified over: {p['quantifier']['text']}\n\nWhy tests cannot settle it: {p['why_tests_cant']}\n\n")
         if p.get("anchors"):
